@@ -612,8 +612,8 @@ _MISSING_DTYPES = ['float64', 'float64', 'float32', 'object', 'M8[D]', 'complex1
 def _missing_spec(rng):
     """A spec whose cells are missing about half of the time, in runs: the sided / directional fills carry state
     from block to block, so what they do depends on where a run of missing cells meets a block boundary."""
-    spec = F.random_spec(rng, max_rows=4, max_cols=6, min_rows=1, min_cols=3, dtypes=_MISSING_DTYPES,
-                         row_kinds=['auto', 'str'], col_kinds=['str', 'auto'])
+    spec = F.random_spec(rng, max_rows=4, max_cols=7, min_rows=1, min_cols=3, dtypes=_MISSING_DTYPES,
+                         row_kinds=['auto', 'str'], col_kinds=['str', 'auto'], homog_p=0.3)
     nr, nc = spec.shape
     for i in range(nr):
         j = 0
